@@ -122,7 +122,10 @@ fn run16v(toks: &[&str], wk: &mut Wakers, out: &mut String, mut tok_end: impl Fn
                                 let tx = senders[i].as_mut().unwrap();
                                 let ready = matches!(Pin::new(&mut *tx).poll_ready(&mut cx), Poll::Ready(Ok(())));
                                 let r = Pin::new(&mut *tx).start_send(v);
-                                let flushed = matches!(Pin::new(&mut *tx).poll_flush(&mut cx), Poll::Ready(Ok(())));
+                                // the message is in the channel and the receiver woken by start_send itself: only every third
+                                // send is followed by a flush (which must then find nothing to do), so a wake-up that is left
+                                // to the flush shows
+                                let flushed = k % 3 != 0 || matches!(Pin::new(&mut *tx).poll_flush(&mut cx), Poll::Ready(Ok(())));
                                 if !ready || !flushed {
                                     out.push_str("?sink-not-ready-or-not-flushed:");
                                 }
